@@ -3,8 +3,11 @@
 #  T1: the rank order of the lock macros is re-read from the source on every run (gen_facts LOCALS / regex below);
 #  implementation side: threads run generated short programs; every call is stamped at invocation and response;
 #  the oracle searches for a linearisation (Wing-Gong) and a watchdog reports a hung call.
-import os, re, json, tempfile, shutil, subprocess
+import os, re, json, tempfile, shutil, subprocess, sys
+from concurrent.futures import ThreadPoolExecutor
 import vlib
+sys.path.insert(0, os.path.dirname(os.path.abspath(__file__)))
+import c07_preempt
 
 LEVEL = "proof"
 KEYS = [b"a", b"b", b"c", b"k" * 40]
@@ -291,16 +294,27 @@ def check(run):
     work = tempfile.mkdtemp(prefix="iwkv-C07-", dir="/dev/shm" if os.path.isdir("/dev/shm") else None)
     n = (400 if run.tier == "quick" else 6000) * (1 if ok and not bad else 5)
     try:
+        # systematic part: thread B runs at every lock release of thread A's operation (checks/c07_preempt.py)
+        open_findings = os.environ.get("VERIF_CONC_OPEN") == "1"
+        c07_preempt.stage(run, sys.modules[__name__], work, (1 if run.tier == "quick" else 12) * (1 if ok and not bad else 3), open_findings)
+        # sampled part: free-running threads
+        cases = []
         for i in range(n):
             rng = run.rng.fork()
-            path = os.path.join(work, "c%d.db" % (i % 8))
+            cases.append(gen(rng, os.path.join(work, "c%d.db" % i)))
+
+        def one(c):
+            r = run_one(exe, c[0])
             for suf in ("", "-wal"):
                 try:
-                    os.unlink(path + suf)
+                    os.unlink(c[0][0].split()[1] + suf)
                 except OSError:
                     pass
-            lines, nt, ndb = gen(rng, path)
-            rc, out, err = run_one(exe, lines)
+            return r
+
+        with ThreadPoolExecutor(6) as ex:
+            outs = list(ex.map(one, cases))
+        for (lines, nt, ndb), (rc, out, err) in zip(cases, outs):
             run.case("\n".join(lines[1:]), nontrivial=True, sample={"threads": nt, "program": lines[1:8]})
             run.dist("threads=%d" % nt)
             for l in lines:
@@ -315,7 +329,8 @@ def check(run):
     finally:
         shutil.rmtree(work, ignore_errors=True)
     return run.finish(level=LEVEL,
-                      rule="2-4 threads x 2-5 calls (put/get/del/scan/sync/checkpoint) on 1-2 databases over 4 keys, WAL on/off; each execution is checked "
+                      rule="preemption explorer: (A operation, B operation) pairs x WAL on/off x every lock release of A as the point where B runs one "
+                           "complete operation; distinct by (pair, WAL, k).  Sampled part: 2-4 threads x 2-5 calls (put/get/del/scan/sync/checkpoint) on 1-2 databases over 4 keys, WAL on/off; each execution is checked "
                            "for a linearisation consistent with program order (exact search) and for termination (30 s watchdog); distinct by program text",
                       assumptions=["the kernel scheduler decides the interleavings actually seen: a run samples schedules, the theorem covers the lock skeleton",
                                    "data races inside critical sections are outside the model (no TSan verdict is used, it reports benign counters)"])
@@ -323,6 +338,8 @@ def check(run):
 
 def replay(run, path):
     r = json.load(open(path))
+    if r.get("kind") == "preempt":
+        return c07_preempt.replay_one(sys.modules[__name__], r)
     if r.get("kind") == "lock-order":
         import kvcommon
         exe = vlib.build_harness("h_lockord")
